@@ -71,6 +71,35 @@ impl Rng {
         &xs[self.usize_below(xs.len())]
     }
 
+    /// Content for byte-string members: mostly random, sometimes a pattern that code might treat
+    /// specially (all zero, all 0xff, a single repeated byte, ASCII, leading/trailing zero or 0x80 bytes).
+    pub fn content(&mut self, n: usize) -> Vec<u8> {
+        let mut b = self.bytes(n);
+        if n == 0 {
+            return b;
+        }
+        match self.below(12) {
+            0 => b.iter_mut().for_each(|x| *x = 0),
+            1 => b.iter_mut().for_each(|x| *x = 0xff),
+            2 => {
+                let v = self.next() as u8;
+                b.iter_mut().for_each(|x| *x = v)
+            }
+            3 => b.iter_mut().for_each(|x| *x = b'a' + (*x % 26)),
+            4 => b[0] = 0,
+            5 => b[n - 1] = 0,
+            6 => b[0] = 0x80,
+            7 => {
+                b[0] = 0x30;
+                if n > 1 {
+                    b[1] = 0x82;
+                }
+            }
+            _ => {}
+        }
+        b
+    }
+
     pub fn bytes(&mut self, n: usize) -> Vec<u8> {
         let mut v = Vec::with_capacity(n);
         while v.len() < n {
